@@ -3,7 +3,7 @@
    returned by FreqValue() are exactly the vectors v of length len(m) with 0 <= v[i] <= m[i] and
    sum k, each once, in colexicographic order; k > sum(m) yields nothing; exhaustion is absorbing. *)
 From Coq Require Import List ZArith Lia Arith Bool Sorted.
-From Mamba Require Import Iter.Model Iter.Enum Iter.Lex Iter.Colex Iter.PermUtil Iter.IntPartOrder Iter.IntPart.
+From Mamba Require Import Iter.Model Iter.Enum Iter.Lex Iter.Colex Iter.PermUtil Iter.PermEnum Iter.IntPartOrder Iter.IntPart Iter.PartBlocks.
 Import ListNotations.
 Open Scope Z_scope.
 
@@ -420,4 +420,49 @@ Proof.
   intros m k Hm Hk. apply enumerates_of_sorted.
   - intros x _. apply colex_irrefl.
   - apply mcomb_enumerates_sorted; auto. apply forall_nonneg_nth. auto.
+Qed.
+
+(* ------------------------------------------------------------------ Value(): the multiset itself *)
+
+Lemma repeat_app_inj : forall (i : Z) p q r1 r2, Forall (fun v => i < v) r1 -> Forall (fun v => i < v) r2 ->
+  repeat i p ++ r1 = repeat i q ++ r2 -> p = q /\ r1 = r2.
+Proof.
+  induction p as [|p IH]; intros [|q] r1 r2 F1 F2 E; simpl in E.
+  - auto.
+  - subst r1. inversion F1; subst. lia.
+  - subst r2. inversion F2; subst. lia.
+  - inversion E as [E']. destruct (IH q r1 r2 F1 F2 E'). split; [lia|auto].
+Qed.
+
+Lemma expand_inj : forall x y i, length x = length y ->
+  (forall v, In v x -> 0 <= v) -> (forall v, In v y -> 0 <= v) -> expand i x = expand i y -> x = y.
+Proof.
+  induction x as [|a x IH]; intros [|b y] i Hl Hx Hy E; simpl in Hl; try discriminate; auto.
+  cbn [expand] in E.
+  assert (Fx : Forall (fun v => i < v) (expand (i + 1) x)).
+  { eapply Forall_impl; [|apply (proj2 (expand_sorted x (i + 1)))]. intros; lia. }
+  assert (Fy : Forall (fun v => i < v) (expand (i + 1) y)).
+  { eapply Forall_impl; [|apply (proj2 (expand_sorted y (i + 1)))]. intros; lia. }
+  destruct (repeat_app_inj i _ _ _ _ Fx Fy E) as [E1 E2].
+  pose proof (Hx a ltac:(left; auto)). pose proof (Hy b ltac:(left; auto)).
+  f_equal; [lia|]. apply (IH y (i + 1)); auto.
+  - intros v Hv. apply Hx. right; auto.
+  - intros v Hv. apply Hy. right; auto.
+Qed.
+
+Theorem mcomb_value_enumerates : forall m k, Forall (fun v => 0 <= v) m -> 0 <= k ->
+  exists lf e,
+    (forall fuel, (length lf < fuel)%nat ->
+       drain mcomb_next mcomb_value fuel (mcomb_init m k) = Some (map (expand 0) lf, e)) /\
+    (forall x, In x lf <-> mc_F m k x) /\ NoDup lf /\ NoDup (map (expand 0) lf) /\
+    exhausted mcomb_next e.
+Proof.
+  intros m k Hm Hk. destruct (mcomb_enumerates m k Hm Hk) as (lf & e & Hd & _ & Hnd & Hin & Hex).
+  exists lf, e. split; [|split; [|split; [|split]]]; auto.
+  - intros fuel Hf. apply (drain_map_value _ _ _ mcomb_next mcomb_freq (expand 0)). apply Hd. auto.
+  - apply nodup_map_inj_on; auto. intros x y Hx Hy E. apply Hin in Hx, Hy.
+    destruct Hx as (Lx & Bx & _). destruct Hy as (Ly & By & _).
+    apply (expand_inj x y 0); auto; try lia.
+    + intros v Hv. destruct (In_nth _ _ 0 Hv) as (i & Hi & <-). apply Bx. lia.
+    + intros v Hv. destruct (In_nth _ _ 0 Hv) as (i & Hi & <-). apply By. lia.
 Qed.
